@@ -270,13 +270,26 @@ pub fn run(tier: Tier) -> i32 {
   sweep(&mut run, &f2, "rule_headers");
   sweep(&mut run, &f3, "multi_rule");
   sweep(&mut run, &f4, "respelled_and_commented");
+  // operands that span several lines before an operator / a choice / a following entry: a node's line must come from its
+  // own start, whatever precedes it
+  let mut f7 = vec![];
+  let lefts = ["{\n  x: int,\n  y: tstr,\n}", "[\n int,\n tstr\n]", "(\n int /\n tstr\n)", "&(\n a: 1,\n b: 2\n)", "h'01\n02'", "m<\n int\n>", "\"a\"", "#6.1(\n int\n)"];
+  let tails = [" .within b", " .and b", " .size 2", "\n .eq b", " .. 5", " ... b", " / b", "\n / b / c"];
+  for l in lefts {
+    for t in tails {
+      for ctx in ["r = @\nb = 1\nc = 2\nm<t> = t\n", "a = 1\n\nr = [@, @]\nb = 1\nc = 2\nm<t> = t\n", "r = {k: @, ? j: @}\nb = 1\nc = 2\nm<t> = t\n"] {
+        f7.push(ctx.replace('@', &format!("{l}{t}")));
+      }
+    }
+  }
+  sweep(&mut run, &f7, "multi_line_operands");
   sweep(&mut run, &f5, "single_edit_mutants");
   run.rule = "state = one text. Accepted texts (syntax families of C06 plus tab/CRLF respellings and spellings with multi-byte comments) are checked on every span reachable in the \
     public AST: 0 <= start <= end <= len on UTF-8 character boundaries; line = 1 + line breaks before start; every spanned node lies inside its nearest spanned ancestor; \
     spanned siblings are in source order without overlap; an identifier's span covers exactly its text incl. socket prefix; a rule's span starts at its name (the empty type \
     synthesised for a content-less '#6' has no source text and is exempt). Rejected texts - every single-character deletion, every insertion of one of 5 probe characters \
     (incl. a 2-byte one) at every character boundary, every truncation, of the small documents - are checked on the reported Position: index and range inside the input, on \
-    character boundaries, range non-inverted, line/column equal to those recomputed from the index (column counted in characters). Plus documents whose error is a duplicate rule (reported through AST spans) placed after multi-byte text on the same line. transition = one edit / one respelling. \
+    character boundaries, range non-inverted, line/column equal to those recomputed from the index (column counted in characters). Plus 8 multi-line left operands x 8 operator / choice tails x 3 contexts (a node's line comes from its own start). Plus documents whose error is a duplicate rule (reported through AST spans) placed after multi-byte text on the same line. transition = one edit / one respelling. \
     non-trivial = min(accepted, rejected) per family (both halves of the property are exercised)."
     .into();
   run.finish()
